@@ -27,6 +27,7 @@ void Engine<Policy>::reset() {
     }
     classes_.clear();
     methods_.clear();
+    vars_.clear();
     comp_.reset();
     handler_returns_ = false;
     install_handlers();
@@ -122,12 +123,31 @@ void Engine<Policy>::do_update() {
     bool ok = false;
     std::string saved;
     saved.swap(g_out); // the #rng line must come first
+    if constexpr (PolicyTraits<Policy>::hashed) {
+#ifdef YOMM2_VERIF
+        // if the error handler returns, the library aborts: leave the multiplier stream of an
+        // exhausted search (4 passes x budget attempts) for the SIGABRT handler to print
+        auto budget = yorel::yomm2::verif::hash_attempt_budget;
+        if (budget <= 2000) {
+            std::default_random_engine rnd(13081963);
+            std::uniform_int_distribution<type_id> uniform_dist;
+            std::ostringstream os;
+            os << "#rng";
+            for (std::size_t i = 0; i < 4 * budget; ++i) {
+                os << " " << uniform_dist(rnd);
+            }
+            os << "\n";
+            g_abort_note = saved + os.str();
+        }
+#endif
+    }
     try {
         ok = guarded(*this, "update ", [&] { comp_.emplace(yorel::yomm2::update<Policy>()); });
     } catch (...) {
         saved.swap(g_out);
         throw;
     }
+    g_abort_note.clear();
     std::string result;
     result.swap(g_out);
     g_out.swap(saved);
@@ -160,6 +180,8 @@ void Engine<Policy>::do_update() {
             os << " " << m;
         }
         emit(os.str());
+    } else {
+        emit("#rng"); // one line per update, whatever the policy
     }
 
     g_out += result;
@@ -366,7 +388,7 @@ void Engine<Policy>::do_dump() {
                     if constexpr (PolicyTraits<Policy>::hashed) {
                         index = (Policy::hash_mult * id) >> Policy::hash_shift;
                     }
-                    if (index < Policy::vptrs.size() && Policy::vptrs[index]) {
+                    if (index < Policy::vptrs.size()) {
                         entries[index] = Policy::vptrs[index] - base;
                     }
                 }
@@ -385,6 +407,10 @@ void Engine<Policy>::do_dump() {
 
 template<class Policy>
 void Engine<Policy>::do_call(const std::vector<std::string>& tok, bool follow_next, int route) {
+    if (!comp_) {
+        emit("skipped: no completed update");
+        return;
+    }
     long key = tol(tok.at(1));
     auto it = methods_.find(key);
     if (it == methods_.end()) {
@@ -393,14 +419,39 @@ void Engine<Policy>::do_call(const std::vector<std::string>& tok, bool follow_ne
     }
     auto& mr = it->second;
     std::vector<type_id> ids;
-    for (std::size_t i = 2; i < tok.size(); ++i) {
-        ids.push_back(toid(tok[i]));
+    std::vector<const void*> pre;
+    {
+        // tokens give one entry per *virtual* parameter: an id, or $name for an existing virtual_ptr
+        std::size_t t = 2;
+        for (int kind : mr.slot->kinds) {
+            if (kind == 2) {
+                pre.push_back(nullptr);
+                continue;
+            }
+            if (t >= tok.size()) {
+                emit("!harness too few arguments");
+                return;
+            }
+            if (tok[t][0] == '$') {
+                auto v = vars_.find(tok[t].substr(1));
+                if (v == vars_.end() || !v->second.vp || kind != 1) {
+                    emit("!harness bad virtual_ptr variable");
+                    return;
+                }
+                pre.push_back(&*v->second.vp);
+                ids.push_back(v->second.obj->type);
+            } else {
+                pre.push_back(nullptr);
+                ids.push_back(toid(tok[t]));
+            }
+            ++t;
+        }
     }
     g_ran.clear();
     g_follow_next = follow_next;
     std::string saved;
     saved.swap(g_out);
-    bool ok = guarded(*this, "", [&] { mr.slot->call(ids, route); });
+    bool ok = guarded(*this, "", [&] { mr.slot->call(ids, route, pre); });
     std::string err;
     err.swap(g_out);
     g_out.swap(saved);
@@ -593,11 +644,54 @@ void Engine<Policy>::op(const std::vector<std::string>& tok) {
         mr.def_info.erase(j);
         mr.j_def.erase(j);
         mr.def_j.erase(f);
+    } else if (cmd == "vnew" || cmd == "vfinal") {
+        // vnew <name> <id> : virtual_ptr built from a reference; vfinal: with final
+        auto& var = vars_[tok.at(1)];
+        var.vp.reset();
+        var.obj = std::make_shared<Obj>(toid(tok.at(2)));
+        bool ok = guarded(*this, "", [&] {
+            if (cmd == "vnew") {
+                var.vp.emplace(*var.obj);
+            } else {
+                var.vp.emplace(virtual_ptr<Obj, Policy>::final(*var.obj));
+            }
+        });
+        if (ok) {
+            emit(var.vp->get() == var.obj.get() ? "vptr ok" : "vptr BADOBJ");
+        }
+    } else if (cmd == "vcopy" || cmd == "vmove") {
+        auto src = vars_.find(tok.at(2));
+        if (src == vars_.end() || !src->second.vp) {
+            emit("!harness bad virtual_ptr variable");
+            return;
+        }
+        auto& dst = vars_[tok.at(1)];
+        dst.vp.reset();
+        dst.obj = src->second.obj;
+        if (cmd == "vcopy") {
+            dst.vp.emplace(*src->second.vp);
+        } else {
+            virtual_ptr<Obj, Policy> tmp(*src->second.vp);
+            dst.vp.emplace(std::move(tmp));
+        }
+        // the copy points to the source's object: keep that object alive through dst too
+        emit(dst.vp->get() == src->second.obj.get() ? "vptr ok" : "vptr BADOBJ");
+    } else if (cmd == "lookup") {
+        // lookup <id>: Policy::dynamic_vptr on an object of that dynamic type
+        if (!comp_) {
+            emit("skipped: no completed update");
+            return;
+        }
+        Obj o(toid(tok.at(1)));
+        guarded(*this, "", [&] {
+            const std::uintptr_t* p = Policy::dynamic_vptr(o);
+            emit("vptr " + std::to_string(p - Policy::dispatch_data.data()));
+        });
     } else if (cmd == "update") {
         do_update();
     } else if (cmd == "dump") {
         do_dump();
-    } else if (cmd == "call") {
+    } else if (cmd == "call" || cmd == "vcall") {
         do_call(tok, false, 0);
     } else if (cmd == "callfinal") {
         do_call(tok, false, 1);
